@@ -381,6 +381,23 @@ def check_writers(idx, run):
     run.floor("GOcean bound writers", seen, 8)
 
 
+def check_store_unconditional(idx, run):
+    """a (re-)definition of an iteration space always replaces the bounds"""
+    from sa.obligations import skips_consult
+    cls = idx.get_class("psyclone.gocean1p0.GOLoop")
+    func = cls.methods.get("add_bounds")
+    if func is None:
+        raise AnalysisError("GOLoop.add_bounds not found")
+    res = skips_consult(func, "'outer': {'start': data[3]")
+    run.check("C25.R2", res is None, "GOLoop.add_bounds",
+              "the bounds of a (re)defined iteration space are always stored",
+              f"add_bounds can finish without storing the bounds it was "
+              f"given ({res}): a second definition of an iteration space "
+              f"(another configuration file in the same process, or an "
+              f"override of a built-in region) is silently ignored and the "
+              f"loops keep the first region", loc(cls.module, func))
+
+
 def check_boundary_move(idx, run):
     """C25.R5: GOMoveIterationBoundariesInsideKernelTrans widens the loops
     around a kernel to the whole field and masks *that* kernel.  Every other
@@ -431,6 +448,7 @@ def check(idx, run):
     check_bound_names(idx, run)
     check_writers(idx, run)
     check_boundary_move(idx, run)
+    check_store_unconditional(idx, run)
     run.exhaustive = True
     run.assumptions = ["dl_esm_inf defines internal/whole regions as the "
                        "configuration names them"]
